@@ -575,4 +575,69 @@ def attributeString (maxDigits : Nat) (f : FmtCfg) (items : Items) : Res PStr :=
 def asciiLowerCp (c : Nat) : Nat := if 65 ≤ c ∧ c ≤ 90 then c + 32 else c
 def asciiLower (s : PStr) : PStr := s.map asciiLowerCp
 
+/-! ### builder options (`TreeBuilder.__init__`, builder/__init__.py:209-241; `HTMLParserTreeBuilder.__init__`,
+    `BeautifulSoupHTMLParser.__init__`, _htmlparser.py:84-93, 357-377) -/
+
+/-- the `multi_valued_attributes` argument: left out (the `USE_DEFAULT` sentinel, compared with `is`), `None`, or a map -/
+inductive MvaArg where
+  | useDefault
+  | none
+  | map (m : CdataMap)
+deriving DecidableEq, Repr
+
+/-- the `on_duplicate_attribute` argument -/
+inductive OnDupArg where
+  | absent                                            -- not given: `REPLACE`
+  | pyNone                                            -- `None`
+  | str (s : PStr)                                    -- a string
+  | callable (f : Items → PStr → PStr → Items)
+
+def replaceStr : PStr := [114, 101, 112, 108, 97, 99, 101]   -- "replace"
+def ignoreStr : PStr := [105, 103, 110, 111, 114, 101]        -- "ignore"
+
+/-- how `handle_starttag` reads the setting (`== IGNORE`, `in (None, REPLACE)`, else call it): `none` = a string that
+    is neither — Python then fails with `TypeError: 'str' object is not callable` at the first repeated attribute -/
+def resolveOnDup : OnDupArg → Option OnDup
+  | .absent | .pyNone => some .replace
+  | .str s => if s == ignoreStr then some .ignore else if s == replaceStr then some .replace else Option.none
+  | .callable f => some (.callable f)
+
+/-- `classDefault` = the builder class's `DEFAULT_CDATA_LIST_ATTRIBUTES`; the dictionary and list classes default to
+    `AttributeDict` and `AttributeValueList` -/
+def mkBuilder (classDefault : CdataMap) (isXml : Bool) (mva : MvaArg) (dictCls : Option DictClass)
+    (listCls : Option Nat) : BuilderCfg :=
+  { cdata := match mva with
+      | .useDefault => some classDefault
+      | .none => Option.none
+      | .map m => some m
+    dictCls := match dictCls with | some c => c | Option.none => .plain
+    listCls := match listCls with | some c => c | Option.none => 1
+    isXml := isXml }
+
+def hasDupKey : List PStr → Bool
+  | [] => false
+  | k :: ks => ks.contains k || hasDupKey ks
+
+/-- a start tag under the raw `on_duplicate_attribute` setting; `none` = Python's `TypeError` (a string that is no
+    policy is "called" at the first repeated attribute; without a repeated attribute the setting is never looked at) -/
+def parseStartTagArg (maxDigits : Nat) (lower : PStr → PStr) (b : BuilderCfg) (a : OnDupArg) (name : PStr)
+    (attrs : List (PStr × Option PStr)) : Option (Res TagAttrs) :=
+  match resolveOnDup a with
+  | some p => some (parseStartTag maxDigits lower b p name attrs)
+  | Option.none =>
+    if hasDupKey (attrs.map (·.1)) then Option.none
+    else some (parseStartTag maxDigits lower b .replace name attrs)
+
+/-! ### `re.findall(r"\S+", s)` as the regex engine proceeds: at each position try to match there (greedily), else
+    move one character on. `splitWs` is proved equal to it. -/
+
+def findallGo : Nat → PStr → List PStr
+  | 0, _ => []
+  | _ + 1, [] => []
+  | fuel + 1, c :: cs =>
+    if isWs c then findallGo fuel cs
+    else (c :: cs).takeWhile (fun x => !isWs x) :: findallGo fuel ((c :: cs).dropWhile (fun x => !isWs x))
+
+def findallNonWs (s : PStr) : List PStr := findallGo (s.length + 1) s
+
 end BS.Attrs
